@@ -787,7 +787,10 @@ impl Driver for SimDriver {
             // and with no external action possible the system is treated as quiescent.
             let spinning = {
                 let mut st = self.st.borrow_mut();
-                let hl = self.w.hist.borrow().len();
+                // (progress = a new event, or bytes moving through a socket: a long payload read in small
+                // pieces produces no event for hundreds of polls)
+                let moved: usize = (0..st.peers.len()).map(|c| self.w.wire(c).arrived_len() + self.w.wire(c).out_len()).sum();
+                let hl = self.w.hist.borrow().len() + moved.wrapping_mul(1_000_003);
                 if hl != st.hist_len_seen || !acts.is_empty() || runnable.is_empty() {
                     st.hist_len_seen = hl;
                     st.quiet_polls = 0;
